@@ -1,6 +1,7 @@
 import ExponaxModel.Proofs.ListLemmas
 import ExponaxModel.Generated.Convert
 import ExponaxModel.Generated.Etdrk
+import ExponaxModel.Proofs.StepperSymbols
 /-
 C13 — specific / generic / normalized / difficulty interfaces give the same dynamics.
 
@@ -216,6 +217,47 @@ theorem C13_symbol_term_scaling (a dt L s κ : K) (j : ℕ) (hL : L ≠ 0) :
   field_simp
 
 /-! ### non-vacuity -/
+/-! ### one linear symbol for the whole generic family, regenerated from the six `_build_linear_operator` sources; the
+Normalized… / Difficulty… classes inherit it (they only convert their arguments) -/
+open Exponax.Gen.Steppers Exponax.Nonlin in
+theorem C13_generated_family_symbol (c : Cfg ℂ) (h : ℕ) (a : List ℂ) :
+    GeneralLinearStepper_linear_operator (kappa c h) a = polySymbol c (generalLinear c.D a) h ∧
+    GeneralConvectionStepper_linear_operator (kappa c h) a = polySymbol c (generalLinear c.D a) h ∧
+    GeneralGradientNormStepper_linear_operator (kappa c h) a = polySymbol c (generalLinear c.D a) h ∧
+    GeneralPolynomialStepper_linear_operator (kappa c h) a = polySymbol c (generalLinear c.D a) h ∧
+    GeneralNonlinearStepper_linear_operator (kappa c h) a = polySymbol c (generalLinear c.D a) h ∧
+    GeneralVorticityConvectionStepper_linear_operator (kappa c h) a = polySymbol c (generalLinear c.D a) h :=
+  ⟨GeneralLinearStepper_linear_operator_polySymbol c h a, GeneralConvectionStepper_linear_operator_polySymbol c h a,
+   GeneralGradientNormStepper_linear_operator_polySymbol c h a, GeneralPolynomialStepper_linear_operator_polySymbol c h a,
+   GeneralNonlinearStepper_linear_operator_polySymbol c h a,
+   GeneralVorticityConvectionStepper_linear_operator_polySymbol c h a⟩
+
+theorem C13_generated_inheritance : Gen.Steppers.inherited_classes =
+    [("DifficultyConvectionStepper", "GeneralConvectionStepper"),
+     ("DifficultyGradientNormStepper", "GeneralGradientNormStepper"),
+     ("DifficultyLinearStepper", "GeneralLinearStepper"),
+     ("DifficultyLinearStepperSimple", "GeneralLinearStepper"),
+     ("DifficultyNonlinearStepper", "GeneralNonlinearStepper"),
+     ("DifficultyPolynomialStepper", "GeneralPolynomialStepper"),
+     ("NormalizedConvectionStepper", "GeneralConvectionStepper"),
+     ("NormalizedGradientNormStepper", "GeneralGradientNormStepper"),
+     ("NormalizedLinearStepper", "GeneralLinearStepper"),
+     ("NormalizedNonlinearStepper", "GeneralNonlinearStepper"),
+     ("NormalizedPolynomialStepper", "GeneralPolynomialStepper")] := coverage_inherited
+
+/-- the specific steppers of the overview against their generic equivalents, on the regenerated symbols:
+    Burgers = general(0, 0, ν), KS = general(0, 0, −a, 0, −b), Fisher-KPP's linear part = general(r/D, 0, ν) -/
+theorem C13_generated_specific_vs_generic (c : Nonlin.Cfg ℂ) (h : ℕ) (ν a b : ℂ) :
+    Gen.Steppers.Burgers_linear_operator (Exponax.kappa c h) ν
+      = Gen.Steppers.GeneralLinearStepper_linear_operator (Exponax.kappa c h) [0, 0, ν] ∧
+    Gen.Steppers.KuramotoSivashinsky_linear_operator (Exponax.kappa c h) a b
+      = Gen.Steppers.GeneralLinearStepper_linear_operator (Exponax.kappa c h) [0, 0, -a, 0, -b] := by
+  constructor
+  · rw [Burgers_linear_operator_eq, GeneralLinearStepper_linear_operator_eq]
+    simp [Finset.sum_range_succ]
+  · rw [KuramotoSivashinsky_linear_operator_eq, GeneralLinearStepper_linear_operator_eq]
+    simp [Finset.sum_range_succ]; ring
+
 example : ((3 : ℕ) : ℚ) ≠ 0 ∧ ((16 : ℕ) : ℚ) ≠ 0 ∧ (2 : ℚ) ≠ 0 := by norm_num
 example : normalize_coefficients [(1 : ℚ), 2, 3] 2 (1 / 2) = [1 / 2, 1 / 2, 3 / 8] := by
   rw [C13_normalize_coefficients_formula]; norm_num [List.mapIdx_cons]
